@@ -77,6 +77,7 @@ JudgeSched(e) ==
    info |-> [id |-> e.id, ev |-> "sched", cut |-> e.cut, base |-> e.base.kind, basemsg |-> e.base.msg,
              bad |-> [i \in 1..Len(badr) |-> [sched |-> badr[i].sched, kind |-> badr[i].val.kind, msg |-> badr[i].val.msg]]]]
 
+\* fault modes: "short" / "next" fail for good at offset k; "once" fails exactly one write and then recovers -- still an error
 JudgeWFault(e) ==
   LET badf == SelectSeq(e.faults, LAMBDA f : ~(f.pan = "" /\ (f.k < e.total => f.err) /\ (~f.err => f.size = f.got))) IN
   [ok |-> ~e.okerr /\ e.oksize = e.total /\ badf = <<>>,
